@@ -19,7 +19,7 @@ COOKIE, INVALID_KE = 16390, 17
 def base_world():
     """A and B as usual; B also has a connection to a third peer C (so that a request from another configured
     address can be tried)"""
-    c = S.base_confs()
+    c = S.base_confs(b_over={'dh': ['19', '20']})
     c['B']['conn_bc'] = S.conn(S.IP_B, S.IP_C, "bob@openikev2", "carol@openikev2", "testing2", "testing3", [S.entry(8)])
     w = S.new_world(c)
     w.sent_log = []
@@ -43,6 +43,25 @@ def variant(req, spi=None, nonce_flip=False, cookies=(), strip_cookies=True):
         pl = [(t, (bytes([b[0] ^ 1]) + b[1:]) if t == F.NONCE else b) for t, b in pl]
     pl = [(F.NOTIFY, F.n_body(COOKIE, c)) for c in cookies] + pl
     return F.clear(spi or h['spi_i'], h['spi_r'], h['exch'], h['flags'], h['mid'], pl)
+
+
+_foreign = []
+
+
+def foreign_requests():
+    """genuine IKE_SA_INIT requests of initiators whose configuration differs from what the responder wants"""
+    if not _foreign:
+        for lab, over in (('ke-group-20', {'dh': ['20', '19']}), ('ke-group-14', {'dh': ['14']}), ('encr-aes128', {'encr': ['aes128']}),
+                          ('prf-sha512', {'prf': ['sha512']})):
+            w = S.new_world(S.base_confs(a_over=over))
+            w.step(('acquire', 'A', 0, 0))
+            _foreign.append((lab, w.net[0].data))
+        base = _foreign[0][1]
+        h = F.parse_hdr(base)
+        pl = F.split_chain(h['first'], base[28:])
+        # (requests that are structurally incomplete - no SA, KE or NONCE payload - are not part of the alphabet: the
+        # property speaks of requests that lack the cookie, and without a nonce no cookie can even be computed)
+    return _foreign
 
 
 def fill_half_open(w, req, n):
@@ -172,6 +191,18 @@ def responder_cases():
         yield must_refuse('replayed-with-other-spi', variant(req, spi=b'\x66' * 8, cookies=[good]))
         yield must_refuse('replayed-with-other-nonce', variant(req, nonce_flip=True, cookies=[good]))
         yield must_refuse('replayed-from-other-address', variant(req, cookies=[good]), S.IP_C)
+        # cookie-less requests the negotiation would refuse anyway (KE in a non-preferred group, unacceptable proposal,
+        # no KE at all): under load the answer is still the COOKIE notification only, without any negotiation work
+        for lab, alt in foreign_requests():
+            kind, c, dh, grew, _ = probe(w, alt)
+            v = []
+            if kind != 'cookie':
+                v.append(('no-cookie:%s:not-answered-with-cookie-only' % lab, 'cookie-less request (%s) answered with %s' % (lab, kind)))
+            if dh:
+                v.append(('no-cookie:%s:dh-computed' % lab, '%d DH computations' % dh))
+            if grew:
+                v.append(('no-cookie:%s:state-left-behind' % lab, 'IKE_SA table changed'))
+            yield ('n=%d:no-cookie:%s' % (n, lab), v, kind)
         # several cookies: either outcome is acceptable, but it must be one of the two clean ones
         for lab, cs in (('wrong-then-right', [bytes(len(good)), good]), ('right-then-wrong', [good, bytes(len(good))])):
             kind, c, dh, grew, _ = probe(w, variant(req, cookies=cs))
@@ -189,7 +220,7 @@ def need_third_peer(w):
 
 def initiator_cases():
     """COOKIE reply delivered once / twice / after the real reply; then the session runs to the end"""
-    for mode in ('once', 'twice', 'after-real-reply', 'stale-cookie-then-real'):
+    for mode in ('once', 'twice', 'after-real-reply', 'second-challenge'):
         w = base_world()
         w.endpoints['B'].controller.cookie_threshold = -1 if mode != 'after-real-reply' else 10 ** 6
         w.step(('acquire', 'A', 0, 0))
@@ -230,7 +261,27 @@ def initiator_cases():
             if mode == 'twice':
                 # the second copy of the COOKIE reply arrives after the retry was sent
                 w.step(('deliver', reply.id))
-            w.deliver_all()
+            if mode == 'second-challenge' and retry:
+                # the responder changes its cookie secret (e.g. it restarted) before the retry arrives: it answers the
+                # retry with a NEW cookie, which the initiator has to send back instead of the old one
+                w.endpoints['B'].controller.cookie_secret = b'another!'
+                w.step(('deliver', retry[0].id))
+                kind2, cookie2 = classify_reply(w)
+                if kind2 != 'cookie' or cookie2 == cookie:
+                    raise HarnessError('expected a second, different COOKIE challenge, got %s' % kind2)
+                w.step(('deliver', w.net[0].id))
+                retry2 = [d for d in w.step_emitted if d.sender == 'A']
+                want2 = variant(first.data, cookies=[cookie2], strip_cookies=True)
+                if len(retry2) != 1 or retry2[0].data != want2:
+                    v.append(('second-challenge:retry-differs', 'after a second, different COOKIE challenge the initiator does not '
+                              'send the original request with the NEW cookie placed first'))
+            guard = 0
+            while w.net and guard < 60:       # bounded: an initiator that keeps re-sending a stale cookie never finishes
+                guard += 1
+                w.step(('deliver', w.net[0].id))
+            if w.net:
+                v.append(('does-not-terminate:%s' % mode, 'the COOKIE exchange is still going on after 60 deliveries'))
+                w.net[:] = []
         for n, ep in w.endpoints.items():
             if not ep.alive:
                 v.append(('daemon-died', '%s died: %r' % (n, ep.dead_reason[:2])))
